@@ -2,6 +2,8 @@ use crate::engine::{Ctx, Outcome, Report};
 use serde_json::Value;
 
 pub mod c01;
+pub mod c05;
+pub mod c11;
 pub mod c13;
 pub mod c16;
 pub mod c17;
@@ -15,6 +17,8 @@ pub struct Prop {
 pub fn all() -> Vec<Prop> {
     vec![
         Prop { id: "C01", run: c01::run, replay: c01::replay },
+        Prop { id: "C05", run: c05::run, replay: c05::replay },
+        Prop { id: "C11", run: c11::run, replay: c11::replay },
         Prop { id: "C13", run: c13::run, replay: c13::replay },
         Prop { id: "C16", run: c16::run, replay: c16::replay },
         Prop { id: "C17", run: c17::run, replay: c17::replay },
